@@ -51,6 +51,8 @@ class Client:
         self.deadline: float | None = None  # simulated time at which a timed wait expires
         self.timed_out = False
         self.exit_lock: Any = None  # held while an adopted thread lives (join waits for it)
+        self.atomic_depth = 0  # > 0: inside an observer / model section (untraced)
+        self.untraced = False  # adopted while its starter ran harness code: never pre-empted
         self.started = False
         self.thread: threading.Thread | None = None
         self.priority = 0
@@ -369,6 +371,10 @@ class Scheduler:
         c.trace_fn = self.make_trace(c)
         c.exit_lock = simthreads.CoopLock()
         c.exit_lock.acquire()
+        # started from an observer / model section or between operations (harness code using the
+        # library, e.g. the fresh parse an oracle compares with): runs, blocks and wakes under the
+        # scheduler like any other thread but is not pre-empted and adds no steps
+        c.untraced = parent.untraced or parent.atomic_depth > 0 or not parent.in_op
         self._low -= 1
         c.priority = self._low
         thread.sim_client = c  # type: ignore[attr-defined]
@@ -381,7 +387,7 @@ class Scheduler:
     def arm_adopted(self, c: Client) -> None:
         c.in_op = True
         c.op_index = -1
-        if self.preempt_lines:
+        if self.preempt_lines and not c.untraced:
             if self.granularity == "opcode":
                 c.suspended = 0
             else:
@@ -720,15 +726,17 @@ class Scheduler:
             # the section belongs to the THREAD that runs it: a caller-supplied object (log
             # handler) may be called on a thread the library started itself
             self.client = current_client() or self.client
+            self.client.atomic_depth += 1
             if self.sched.granularity == "opcode":
                 self.client.suspended += 1
             else:
                 sys.settrace(None)
 
         def __exit__(self, *a: Any) -> None:
+            self.client.atomic_depth -= 1
             if self.sched.granularity == "opcode":
                 self.client.suspended -= 1
-            elif self.client.in_op:
+            elif self.client.in_op and not self.client.untraced:
                 self.sched.install_trace(self.client)
 
     def atomic(self, client: Client) -> "Scheduler._Atomic":
